@@ -335,6 +335,48 @@ def check_translation_invariance(ctx, db):
     ctx.require('R-INVARIANT products and lengths', n, 3)
 
 
+def check_inside_writes_all(ctx, db):
+    """gdstk::inside reports through a caller-provided array: every entry is written on every path. An early return
+    is acceptable only when its guard implies that there are no points (evaluated over the emptiness of both groups)."""
+    f = db.fn('gdstk::inside')
+    ctx.touch(f)
+    body = [s_ for s_ in f.body.c if s_ is not None]
+    writes = [x for x in f.walk() if is_assign(x) and norm(x.child('lhs').text()).startswith('result[')]
+    loop = next((a for a in writes[0].ancestors() if a.k == 'ForStmt' and a.parent is f.body), None) if writes else None
+    if loop is None:
+        raise AnalysisBroken('inside: per-point loop writing result[i] not found')
+    ok_loop = norm(loop.child('cond').text()).endswith('< points.count)') and any(norm(x.child('rhs').text()) == 'false' and x.parent is loop.child('body') for x in writes)
+    ctx.check(ok_loop, 'R-MUSTWRITE', 'inside/every-entry-initialised', loop.loc(), 'the loop over all points starts every iteration by storing false into result[i]')
+
+    def ev(c, pe, ge):
+        c = _strip_casts(c)
+        if c.k == 'ParenExpr':
+            return ev(c.c[0], pe, ge)
+        if c.k == 'UnaryOperator' and c.op == '!':
+            return not ev(c.child('sub'), pe, ge)
+        if c.k == 'BinaryOperator' and c.op in ('&&', '||'):
+            a, b = ev(c.child('lhs'), pe, ge), ev(c.child('rhs'), pe, ge)
+            return (a and b) if c.op == '&&' else (a or b)
+        t = norm(c.text())
+        m = re.fullmatch(r'\((points|polygons)\.count (==|!=|>|<) (\d+)\)', t)
+        if m and m.group(3) == '0' or (m and m.group(2) == '<' and m.group(3) == '1'):
+            empty = pe if m.group(1) == 'points' else ge
+            return {'==': empty, '!=': not empty, '>': not empty, '<': empty}[m.group(2)]
+        raise AnalysisBroken('inside: early-return guard mentions `%s`' % t[:60])
+    bad = []
+    for r in f.walk():
+        if r.k == 'ReturnStmt' and r.id < loop.id:
+            g = next((a for a in r.ancestors() if a.k == 'IfStmt'), None)
+            if g is None:
+                bad.append('%s: unconditional return before the entries are written' % r.loc())
+                continue
+            for pe in (True, False):
+                for ge in (True, False):
+                    if ev(g.child('cond'), pe, ge) and not pe:
+                        bad.append('%s: returns with %d-point input unwritten when %s' % (r.loc(), 1, 'the polygon group is empty' if ge else 'both groups are non-empty'))
+    ctx.check(not bad, 'R-MUSTWRITE', 'inside/no-early-return-with-points', f.loc(), 'no path returns before the per-point loop unless there are no points (an empty polygon group must still answer false for every point)', '; '.join(sorted(set(bad))[:2]))
+
+
 def run(ctx):
     db = ctx.db
     check_prefilters(ctx, db)
@@ -342,10 +384,11 @@ def run(ctx):
     check_groups(ctx, db)
     check_measures(ctx, db)
     check_translation_invariance(ctx, db)
+    check_inside_writes_all(ctx, db)
 
 
 MANIFEST = dict(
-    text='Decides, by exhaustive enumeration of weak orderings (a finite abstract domain that is exact for comparison-only predicates): soundness of the five bounding-box pre-filters; the 9-case table of Polygon::contain over (p0.x, p1.x) against x (only strictly-left edges may be skipped, right edges counted, all others go through the determinant test that reports on-edge points), the half-open crossing rule, and soundness/completeness of the vertex/horizontal-edge boundary test over 81 orderings; plus: group functions reach a positive verdict only through Polygon::contain, visit all points and polygons, and reset a per-point verdict at the start of the iteration of every point; area/signed_area/perimeter return 0 below three vertices before reading vertices, area and signed_area share one shoelace prologue+loop, the repetition factor applies to area and perimeter only, the perimeter is closed, and all three measures take cross products and lengths of vertex differences only (affine typing: translation invariant by construction). Accumulation of the winding number over whole polygons and floating-point sums are not decided.',
+    text='Decides, by exhaustive enumeration of weak orderings (a finite abstract domain that is exact for comparison-only predicates): soundness of the five bounding-box pre-filters; the 9-case table of Polygon::contain over (p0.x, p1.x) against x (only strictly-left edges may be skipped, right edges counted, all others go through the determinant test that reports on-edge points), the half-open crossing rule, and soundness/completeness of the vertex/horizontal-edge boundary test over 81 orderings; plus: group functions reach a positive verdict only through Polygon::contain, visit all points and polygons, reset a per-point verdict at the start of the iteration of every point, and inside() writes every entry of its output array on every path (no early return while there are points); area/signed_area/perimeter return 0 below three vertices before reading vertices, area and signed_area share one shoelace prologue+loop, the repetition factor applies to area and perimeter only, the perimeter is closed, and all three measures take cross products and lengths of vertex differences only (affine typing: translation invariant by construction). Accumulation of the winding number over whole polygons and floating-point sums are not decided.',
     note='Trusted: clang front end, gx, sa rules. Conditions are interpreted only as Boolean combinations of comparisons; anything else raises analysis-broken.',
     technique='predicate extraction + exhaustive weak-order enumeration (finite abstract domain) + decision-table extraction + clone/shape rules',
     design='§4 C14')
